@@ -226,6 +226,15 @@ impl SimDir {
         st.gates[gate].released = true;
         self.cv.notify_all();
     }
+    /// releases the gate and makes sure it never holds anything from now on
+    pub fn disarm(&self, gate: usize) {
+        let mut st = self.st.lock().unwrap();
+        st.gates[gate].released = true;
+        if !st.gates[gate].reached {
+            st.gates[gate].done = true;
+        }
+        self.cv.notify_all();
+    }
     pub fn release_all(&self) {
         let mut st = self.st.lock().unwrap();
         for g in st.gates.iter_mut() {
